@@ -51,6 +51,26 @@ PLAN = {
                   R("exhaustive", "^TestExhaustive$", shards=16, env={"C08_EXH_SEGS": 2, "C08_EXH_SUBSET": 3, "C08_EXH_PATHLEN": 7}, timeout=3000),
                   R("random", "^TestRandom$", checks=200000, shards=16, timeout=3000)],
     ),
+    "C10": dict(
+        pkg="c10", level="exploration",
+        technique="differential testing of the pattern parser against an independent split-based grammar recogniser (exhaustive small-alphabet enumeration, rapid generation, native fuzzing) plus an instantiate-route-substitute-back round trip",
+        level_text="Every string over a pattern-relevant 8-symbol alphabet (and host-only strings over 6 symbols) up to a bounded length, "
+                   "random token soups, damaged valid patterns, long hosts and names around the limits under explicit parameter limits, and "
+                   "arbitrary bytes are submitted to NewRoute/Handle/Delete and to a reference recogniser; each accepted pattern is "
+                   "registered alone and its generated instantiations must be routed back to it with parameters that reproduce the request.",
+        level_note="Trusts harness/ref/grammar.go as the documented grammar; '_' in host labels (documentation and parser disagree, property silent) is not judged and counted.",
+        rule="cases: (string, parameter limits) for the grammar half, (accepted pattern, wildcard values) for the round trip; non-trivial = the string "
+             "contains a wildcard opener or a hostname / the pattern has at least one wildcard; distinct by limits+string or pattern+values",
+        assumptions=["reference grammar = documented grammar", "round-trip values: no '/' in parameter values, no '.' in host values, catch-all values without empty segments"],
+        quick=[REPLAY,
+               R("exhaustive", "^(TestGrammarExhaustive|TestRoundTripExhaustive)$", env={"C10_LEN": 7, "C10_HOSTLEN": 8, "C10_RT_LEN": 8}, timeout=900),
+               R("random", "^(TestGrammarRandom|TestGrammarBytes|TestRoundTrip)$", checks=60000, timeout=900)],
+        thorough=[REPLAY,
+                  R("exhaustive", "^TestGrammarExhaustive$", shards=16, env={"C10_LEN": 7, "C10_HOSTLEN": 9}, timeout=3000),
+                  R("exhaustive-rt", "^TestRoundTripExhaustive$", env={"C10_RT_LEN": 9}, timeout=3000),
+                  R("random", "^(TestGrammarRandom|TestGrammarBytes|TestRoundTrip)$", checks=200000, shards=16, timeout=3000),
+                  dict(name="fuzz", fuzz="FuzzNewRoute", fuzztime="120s")],
+    ),
     "C17": dict(
         pkg="c17", level="exploration",
         technique="exhaustive small-alphabet enumeration + rapid random generation + native fuzzing against a split-and-stack reference implementation",
